@@ -182,7 +182,11 @@ func (c *conn) reader(handler func(uint32, []byte)) {
 			partial[sessionId] = buf
 		} else if hdr[8] == 1 {
 			delete(partial, sessionId)
-			assert.That(buf != nil)
+			if len(buf) == 0 {
+				// an empty message must not crash the process
+				c.err.Store("empty message")
+				break
+			}
 			handler(sessionId, buf) // process message
 		} else {
 			c.err.Store("bad final byte")
